@@ -138,6 +138,30 @@ func (ds *dataStore) enterListMultiBlock(keyNames []string) (ws *wakeSignal) {
 	return ds.waitingClients.enterMultiWait(keyNames)
 }
 
+// A woken client whose retry found the element gone waits again, at the front of the queues.
+func (ds *dataStore) reenterListBlock(ws *wakeSignal, keyNames []string) {
+	ds.mu.Lock()
+	defer ds.mu.Unlock()
+	ds.waitingClients.reenterWait(ws, keyNames)
+}
+
+// A client that stops waiting without having taken anything (timeout, CLIENT UNBLOCK) may
+// already have been chosen by a push: the wake-up is passed on to the next waiter of every
+// list that holds elements, so that no client sleeps next to a non-empty list.
+func (ds *dataStore) passOnWake(keyNames []string) {
+	ds.mu.Lock()
+	defer ds.mu.Unlock()
+	for _, keyName := range keyNames {
+		val, exists := ds.data.get(keyName)
+		if !exists {
+			continue
+		}
+		if list := val.(*storeKey).getList(); list != nil && list.count > 0 {
+			ds.waitingClients.unblock(keyName, list.count)
+		}
+	}
+}
+
 func (ds *dataStore) leaveListBlock(ws *wakeSignal) {
 	ds.mu.Lock()
 	defer ds.mu.Unlock()
